@@ -41,3 +41,11 @@ unit('string_findlast_fwd', functions=FLF, stubs=LEAF_STUBS + ['ST_string__find_
 job('string_findlast_fwd', 'str.find_last_forward', 'h_str_find_last_forward', ['C07'], expect=[r'ST_string_find_last_forward\.postcondition\.[12]'])
 PROPS['C08'] = dict(level='proof', explanation='substr/left/right proved against the clamp specification of the property text for every start, count and size (no oversized allocation request: operator new[] stub asserts it); trim loops proved for unbounded length against an uninterpreted membership predicate; before/after are compositions over the search contracts and the real substr/left: before + separator + after reassembles the original',
     trusted_base=['char_traits<char>::find/length/copy contracts (prelude.h)', 'leaf search contracts (harness/leaf_stubs.h), each clause proved in the C07 leaf jobs'], assumptions=[])
+# ---- C09: split / tokenize / replace
+SPLIT = ['ST::string::split|(const ST::string &, size_t', 'ST::string::split|(const char *, size_t', 'ST::string::split|(char, size_t', 'ST::string::tokenize',
+         'ST::string::replace|(const ST::string &, const ST::string &, ST::case_sensitivity_t) const']
+unit('string_split', functions=SPLIT, stubs=LEAF_STUBS + ['ST_string_ctor__pc_sz_utf_validation_t'], spec='contracts/string_split.spec', harness='harness/string_split.c', include=INC + ['spec/split_ghost.h'])
+job('string_split', 'str.split_string', 'h_str_split_string', ['C09', 'C04'], timeout=900, expect=[r'ST_string_split\.postcondition\.[1-7]', r'ST_string_split\.step\.[123]', r'loop0\.decreases'])
+job('string_split', 'str.split_cstr', 'h_str_split_cstr', ['C09'], timeout=900, expect=[r'ST_string_split\.postcondition\.[1-7]', r'ST_string_split\.step\.[123]', r'loop1\.decreases'])
+job('string_split', 'str.split_char', 'h_str_split_char', ['C09'], timeout=900, expect=[r'ST_string_split\.postcondition\.[1-7]', r'ST_string_split\.step\.[123]', r'loop0\.decreases'])
+job('string_split', 'str.tokenize', 'h_str_tokenize', ['C09', 'C04'], timeout=900, expect=[r'ST_string_tokenize\.postcondition\.[1267]', r'ST_string_tokenize\.step\.[1-6]', r'loop[012]\.decreases'])
